@@ -6,7 +6,9 @@
 * `destroyWalksParents` -- that recursive call exists at all (without it only the own row is deleted);
 * `shuntColless` -- `InheritableSQLObject.get` skips the child's SELECT when the child class has no
   columns (`if not (childResults or childClass.sqlmeta.columns): childResults = (None,)`);
-* `createTagsParent` -- `_create` passes `childName = self.sqlmeta.childName` to the parent object.
+* `createTagsParent` -- `_create` passes `childName = self.sqlmeta.childName` to the parent object;
+* `bulkDeleteDestroys` -- `deleteMany` and `deleteBy` are overridden to `destroySelf()` every object
+  selected by `cls.select(where)` / `cls.selectBy(**kw)` (instead of `SQLObject`'s raw DELETE).
 
 The theorems in Props/C15.lean are stated over these constants.
 """
@@ -80,6 +82,28 @@ def extract(repo):
     tags = "parent_kw['childName'] = self.sqlmeta.childName" in csrc
     if 'parentClass(kw=parent_kw' not in csrc:
         raise ExtractError('_create: creation of the parent object not recognised')
+    # --- deleteMany / deleteBy
+    def destroys_selected(name, selector):
+        try:
+            fn = find_func(cls, name)
+        except ExtractError:
+            return False
+        loops = [n for n in ast.walk(fn) if isinstance(n, ast.For)]
+        if len(loops) != 1:
+            raise ExtractError('%s: expected one loop over the selected objects' % name)
+        loop = loops[0]
+        it = ast.unparse(loop.iter)
+        body = [ast.unparse(st) for st in loop.body]
+        if not (it.startswith('list(cls.%s(' % selector) and body == ['%s.destroySelf()' % ast.unparse(loop.target)]):
+            raise ExtractError('%s: unknown loop: for %s in %s: %s' % (name, ast.unparse(loop.target), it, body))
+        for st in strip_doc(fn.body):
+            if isinstance(st, (ast.Return, ast.Try, ast.While, ast.With)):
+                raise ExtractError('%s: unexpected control flow' % name)
+        return True
+    bulk_many = destroys_selected('deleteMany', 'select')
+    bulk_by = destroys_selected('deleteBy', 'selectBy')
+    if bulk_many != bulk_by:
+        raise ExtractError('deleteMany and deleteBy are not overridden alike')
     lines = [HEADER % 'inherit', '',
              'namespace SqlObjVerif.Inherit.Extracted', '',
              '/-- `destroySelf`: `self._parent.destroySelf()` is called at all -/',
@@ -90,5 +114,7 @@ def extract(repo):
              'def shuntColless : Bool := %s' % _bool(shunt), '',
              "/-- `_create`: `parent_kw['childName'] = self.sqlmeta.childName` -/",
              'def createTagsParent : Bool := %s' % _bool(tags), '',
+             '/-- `deleteMany` / `deleteBy` go through `destroySelf()` of every selected object -/',
+             'def bulkDeleteDestroys : Bool := %s' % _bool(bulk_many), '',
              'end SqlObjVerif.Inherit.Extracted']
     return '\n'.join(lines) + '\n'
